@@ -27,9 +27,8 @@ What one run does (DESIGN 1.4):
 6. verdict: oracle failures -> VIOLATION with the minimised input (class `radix-prefix-identifier`, D26, goes
    through known_findings.txt when the lead lists it); broken ties -> no-failing-input-found.
 
-Development switches (default off, recorded in evidence): C14_SKIP_PROOF=1 skips step 2 (translators still
-run); C14_ASSUME_KNOWN=<key,...> treats the keys as known findings and tolerates model/implementation
-disagreements of exactly that input class (for a scratch tree that already has the fix the model lags behind)."""
+Development switch (default off, recorded in evidence): C14_SKIP_PROOF=1 skips step 2 (translators still run;
+obligations are then reported as NOT discharged)."""
 import glob
 import itertools
 import json
@@ -893,7 +892,8 @@ def minimise(bindir, f, key):
 
 
 def dev_known():
-    return {k for k in os.environ.get("C14_ASSUME_KNOWN", "").split(",") if k}
+    """(the development switch C14_ASSUME_KNOWN existed while D26 was open; it is gone: nothing is tolerated)"""
+    return set()
 
 
 def run(ctx):
